@@ -796,7 +796,81 @@ class Evaluator:
             return T("from_residual", args[0])
         if m == "from" and len(args) == 1 and name.startswith("<T as std::convert::From<T>>"):
             return args[0]
+        if self._is_pure(name):
+            # the same pure predicate asked about the same arguments is ONE atom, wherever it is asked
+            return T("call", name, args, None)
         return T("call", name, args, blk)
+
+    def _is_pure(self, name):
+        if name.startswith("core::str::<impl str>::") or name.startswith("core::char::methods::<impl char>::") or name.startswith("std::char::methods::<impl char>::"):
+            return True
+        facts = self.body.facts
+        if facts is None:
+            return False
+        pure = getattr(facts, "_pure_fns", None)
+        if pure is None:
+            pure = _pure_local_predicates(facts)
+            facts._pure_fns = pure
+        return name in pure
+
+
+_PURE_STD = re.compile(r"(::contains|::eq|::ne|::len|::is_empty|::iter|::into_iter|::next|::deref|::index|::rev|::any|::all|::as_str|::as_slice|::clone|::cmp|::partial_cmp|::lt|::le|::gt|::ge|::starts_with|::ends_with|::is_control|::first|::last|::get)$")
+
+
+def _scan_calls_writes(b):
+    calls = set()
+    writes = False
+    for blk in b["blocks"]:
+        if blk["cleanup"]:
+            continue
+        for st in blk["stmts"]:
+            if st["k"] == "assign" and any(e["k"] == "deref" for e in st["lhs"]["p"]):
+                writes = True
+            if st["k"] == "assign" and st["rv"]["k"] == "agg" and st["rv"].get("agg") == "closure":
+                calls.add(st["rv"]["def"])
+        t = blk["term"]
+        if t["k"] == "call":
+            calls.add(t["callee"].get("resolved") or t["callee"].get("path") or "indirect")
+            for a in t["args"]:
+                if a["k"] == "const" and "fn" in a["c"]:
+                    calls.add(a["c"]["fn"])
+    return calls, writes
+
+
+def _pure_local_predicates(facts):
+    """crate-local functions that return bool, take no `&mut` parameter, write through no pointer and whose bodies
+    (transitively) only call other such functions or read-only std accessors: their result is a function of their
+    arguments, so two calls with equal argument terms are one atom"""
+    data = facts.bodies if isinstance(facts.bodies, dict) else {}
+    cand = {}
+    clos = {}
+    for p, b in data.items():
+        if "::promoted[" in p:
+            continue
+        calls, writes = _scan_calls_writes(b)
+        if writes:
+            continue
+        if "{closure" in p:
+            clos[p] = calls
+            continue
+        tys = {l["i"]: l["ty"] for l in b["locals"]}
+        if tys.get(0) != "bool":
+            continue
+        if any(tys.get(i, "").startswith("&mut") for i in range(1, b["argc"] + 1)):
+            continue
+        cand[p] = calls
+    pure = set(cand) | set(clos)
+    changed = True
+    while changed:
+        changed = False
+        for p in list(pure):
+            for c in cand.get(p, clos.get(p, set())):
+                if c in pure or _PURE_STD.search(c):
+                    continue
+                pure.discard(p)
+                changed = True
+                break
+    return {p for p in pure if p in cand}
 
 
 _CLOSURE_BODIES = {}
@@ -1185,8 +1259,11 @@ class Walker:
     def _mem_atom(k):
         # atoms over memory: membership, len, field reads, calls. Pure-local atoms (loopvars, vars) survive.
         for s in subterms(k):
-            if isinstance(s, tuple) and s and s[0] in ("in", "len", "empty", "field", "call", "index", "elem", "discr"):
-                return True
+            if isinstance(s, tuple) and s:
+                if s[0] in ("in", "len", "empty", "field", "index", "elem", "discr"):
+                    return True
+                if s[0] == "call" and (len(s) < 4 or s[3] is not None):
+                    return True   # impure / site-tagged call; pure predicates over non-memory arguments survive
         return False
 
     @staticmethod
